@@ -510,6 +510,53 @@ theorem attach_above_detach_restores {c : CtxId} {between : List SOp} (h : Above
 example : Above 7 [.attach 1, .attach 2, .detach 2, .attach 3] :=
   .push 1 (by decide) (.block (b := [.attach 2, .detach 2]) (.wrap 2 (inner := []) (rest := []) .nil .nil) (.push 3 (by decide) .nil))
 
+/-! ### The program operations act on a thread's stack exactly through `attach` / `detach` -/
+
+/-- `RuntimeContext::Attach` in a program: the executing thread's stack gets the context pushed, a new token is handed out -/
+theorem step_attach_stack {s s' : State} {t p : Nat} {ob : Obs} (h : step s (.attach t p) = some (s', ob)) :
+    s'.stacks t = attach (s.stacks t) p ∧ top (s'.stacks t) = p ∧ ob = .token s.toks.length ∧
+    s'.toks = s.toks ++ [(p, true)] := by
+  simp only [step] at h
+  split at h
+  · simp at h; obtain ⟨h1, h2⟩ := h; subst h1; exact ⟨by simp [setStack], by simp [setStack, attach, top], h2.symm, rfl⟩
+  · simp at h
+
+/-- `RuntimeContext::Detach(token)` in a program: the stack and the returned flag are `detach` of the token's context -/
+theorem step_detach_stack {s s' : State} {t m : Nat} {ob : Obs} (h : step s (.detach t m) = some (s', ob)) :
+    ∃ c, s.toks[m]? = some (c, true) ∧ s'.stacks t = (detach (s.stacks t) c).1 ∧ ob = .flag (detach (s.stacks t) c).2 := by
+  simp only [step] at h
+  split at h
+  · split at h
+    · rename_i c hc
+      simp at h; obtain ⟨h1, h2⟩ := h; subst h1
+      exact ⟨c, hc, by simp [setStack], h2.symm⟩
+    · simp at h
+  · simp at h
+
+/-- destroying a token (`~Token`) detaches it -/
+theorem step_drop_stack {s s' : State} {t m : Nat} {ob : Obs} (h : step s (.drop t m) = some (s', ob)) :
+    ∃ c, s.toks[m]? = some (c, true) ∧ s'.stacks t = (detach (s.stacks t) c).1 := by
+  simp only [step] at h
+  split at h
+  · split at h
+    · rename_i c hc
+      simp at h; obtain ⟨h1, _⟩ := h; subst h1
+      exact ⟨c, hc, by simp [setStack]⟩
+    · simp at h
+  · simp at h
+
+/-- attach then detach of the token just obtained, as program steps: the stack (hence `GetCurrent()`) is restored -/
+theorem program_attach_detach_restores {s s1 s2 : State} {t p : Nat} {ob1 ob2 : Obs}
+    (h1 : step s (.attach t p) = some (s1, ob1)) (h2 : step s1 (.detach t s.toks.length) = some (s2, ob2)) :
+    s2.stacks t = s.stacks t ∧ ob2 = .flag true := by
+  obtain ⟨a1, _, _, a4⟩ := step_attach_stack h1
+  obtain ⟨c, c1, c2, c3⟩ := step_detach_stack h2
+  rw [a4] at c1
+  simp at c1
+  obtain ⟨rfl, _⟩ := c1
+  rw [a1, detach_attach_restores] at c2 c3
+  exact ⟨c2, c3⟩
+
 /-! ## Scope -/
 
 /-- the key is the literal `"active_span"` -/
